@@ -478,6 +478,9 @@ class FxTr:
         if isinstance(e, ast.UnaryOp) and isinstance(e.op, ast.USub):
             a = self.expr(e.operand, env)
             return V(f"(- {a.term})%Z", "Z") if a.ty == "Z" else V(f"(- {self.toQ(a)})%Q", "Q")
+        if isinstance(e, ast.Call) and isinstance(e.func, ast.Name) and e.func.id == "abs" and len(e.args) == 1 and not e.keywords:
+            a = self.expr(e.args[0], env)
+            return V(f"(Z.abs {a.term})", "Z") if a.ty == "Z" else V(f"(Qabs {self.toQ(a)})", "Q")
         if isinstance(e, ast.Call) and isinstance(e.func, ast.Name) and e.func.id in ("min", "max") and len(e.args) == 2 and not e.keywords:
             a, b = self.expr(e.args[0], env), self.expr(e.args[1], env)
             if a.ty == "Z" and b.ty == "Z":
